@@ -541,7 +541,7 @@ def serve_oracle(ops, impl):
 def sizes(tier):
     if tier == 'quick':
         return {'spec': 1000, 'free': 1000, 'mal': 20, 'conc': 500, 'conc_race': 80, 'seq_race': 100}
-    return {'spec': 20000, 'free': 20000, 'mal': 60, 'conc': 6000, 'conc_race': 600, 'seq_race': 1500}
+    return {'spec': 20000, 'free': 20000, 'mal': 60, 'conc': 10000, 'conc_race': 1000, 'seq_race': 1500}
 
 
 def corpus():
